@@ -6,6 +6,6 @@ CONTRACTS = list(_U) + list(_V) + list(_E) + [ValidateDataFrame, ValidateFrame, 
 
 MANIFEST = {
     "category": "proof",
-    "text": "requires_value and its helpers are proved equal to a decision table written from the ui.json documentation for arbitrary dictionaries (loops carry invariants); each scalar validator is proved to raise iff its constraint is violated; EnforcerPool.enforce and Parameter.value are proved stateless/atomic for any number of enforcers; InputValidation.validate/validate_data are proved (abstract execution of the real code, every path) never to mutate the validator's rule tables or the data they are given. Type/UUID validators and call-history statelessness are exhaustive small-scope native checks (labelled bounded). RequiredObjectDataEnforcer.rule is verified to accept exactly when every data is a child of its own object, Parameter.value to roll back on validation errors and on plain TypeError/AttributeError refusals alike, and the InputFile.ui_json setter to drop the validators built for the previous form. Round-5 additions: a refused assignment to any standard member of a form parameter (directly or through register) leaves form(), the active-member list, membership tests and derived rules unchanged (all FormParameter classes); verdict histories at InputFile level (set_data_value / dictionary assignments / reads, then each candidate judged as by a fresh InputFile holding the same values).",
+    "text": "requires_value and its helpers are proved equal to a decision table written from the ui.json documentation for arbitrary dictionaries (loops carry invariants); each scalar validator is proved to raise iff its constraint is violated; EnforcerPool.enforce and Parameter.value are proved stateless/atomic for any number of enforcers; InputValidation.validate/validate_data are proved (abstract execution of the real code, every path) never to mutate the validator's rule tables or the data they are given. Type/UUID validators and call-history statelessness are exhaustive small-scope native checks (labelled bounded). RequiredObjectDataEnforcer.rule is verified to accept exactly when every data is a child of its own object, Parameter.value to roll back on validation errors and on plain TypeError/AttributeError refusals alike, and the InputFile.ui_json setter to drop the validators built for the previous form. Round-5 additions: a refused assignment to any standard member of a form parameter (directly or through register) leaves form(), the active-member list, membership tests and derived rules unchanged (all FormParameter classes); verdict histories at InputFile level (set_data_value / dictionary assignments / reads, then each candidate judged as by a fresh InputFile holding the same values). Round-6 additions: AssociationValidator stand-in (entities, identifiers and property groups against object / group / workspace parents).",
     "note": "Switch members are typed as the format says (precondition); at most one groupOptional carrier per group (precondition); pydantic forms are outside the deductive part; abstract mode unrolls loops over opaque collections 0..2 times (stated in evidence); T-py dict enumeration axiom assumed.",
 }
